@@ -150,6 +150,7 @@ func main() {
 			for tab, w := range s.mutTab {
 				fmt.Printf("      mutTab %s  <- %s\n", tab, w)
 			}
+			fmt.Printf("      retTab %v\n", s.retTab)
 		}
 		fmt.Println("fields:")
 		for k, v := range e.field {
